@@ -260,6 +260,7 @@ pub open spec fn kernel_frame<M: Math, R: rand::Rng, A: AdaptStrategy<M, Hamilto
     &&& c1.subsample_frequency == c0.subsample_frequency && c1.dynamic_step_size == c0.dynamic_step_size
     &&& c1.trajectory_kind == c0.trajectory_kind && c1.switch_draw == c0.switch_draw
     &&& c1.max_energy_error == c0.max_energy_error && c1.last_info == c0.last_info
+    &&& c1.stats_options == c0.stats_options
 }
 /// leapfrogs that were attempted but did not produce a step of this draw (= divergent leapfrogs)
 pub open spec fn failed_steps(lf0: nat, lf1: nat, info: MclmcInfo) -> int { lf1 - lf0 - info.num_steps }
@@ -326,6 +327,8 @@ pub open spec fn dp_frame<M: Math, R: rand::Rng, A: AdaptStrategy<M, Hamiltonian
     &&& c1.dynamic_step_size == c0.dynamic_step_size && c1.max_energy_error == c0.max_energy_error
     &&& c1.trajectory_kind == c0.trajectory_kind && c1.switch_draw == c0.switch_draw
     &&& c1.adapt.num_tune_view() == c0.adapt.num_tune_view()
+    // [C16.1] the statistics options (the transformation id reported last) change only in expanded_draw
+    &&& c1.stats_options == c0.stats_options
 }
 /// [C18.3] one-step contract of the trajectory switch: the kind becomes Microcanonical exactly in the draw
 /// with draw_count == switch_draw of an EuclideanEarlyThenMicrocanonical chain, and is otherwise unchanged
@@ -346,6 +349,8 @@ pub open spec fn dp_steps<M: Math, R: rand::Rng, A: AdaptStrategy<M, Hamiltonian
     &&& c1.last_info is Some
     &&& p.draw == c0.draw_count && p.chain == c0.chain && c1.draw_count == c0.draw_count + 1
     &&& p.diverging == c1.last_info->0.diverging && p.num_steps == c1.last_info->0.num_steps
+    // [C16.1] the flag and the divergence details of a draw go together (the statistics are built from the details)
+    &&& c1.last_info->0.diverging == (c1.last_info->0.divergence_info is Some)
     &&& (!p.diverging ==> i2r(p.num_steps as int) >= nbs
             && total_time_is(c1.last_info->0.average_step_size.r(), p.num_steps as int, nbs, eps)
             && c1.state.view().idx == p.num_steps)
@@ -451,4 +456,216 @@ pub proof fn lemma_tuning_reported(tr: Seq<ChainView>, res: Seq<bool>, rep: Seq<
 {
     if i > 0 { lemma_tuning_reported(tr, res, rep, i - 1); lemma_run_step(tr, res, rep, i - 1); assert(tr[i - 1 + 1] == tr[i]); }
     lemma_run_step(tr, res, rep, i);
+}
+
+// =====================================================================================
+// Statistics plumbing of the MCLMC chain (C16.1, C16.2, C03.5): extract_stats / expanded_draw.
+// Same structure as unit chain (nc_stats_* / ne_mid / nc_exp_*), written from the statement of C16.
+// =====================================================================================
+
+/// the part of unit stats' `div_stats_post` that does not look inside DivergenceInfo: the flag and the identifying
+/// draw field follow `info` (SAME TEXT as unit chain)
+pub open spec fn chain_div_post(info: Option<&DivergenceInfo>, opts: DivergenceStatsOptions, draw: u64, r: DivergenceStats) -> bool {
+    &&& r.diverging == info is Some
+    &&& r.divergence_draw == (if info is Some { Some(draw) } else { None::<u64> })
+    &&& (r.divergence_message is Some == info is Some)
+}
+/// an optional per-draw vector: present IFF its store_* flag is set, with length dim and the content of the point's
+/// vector (SAME TEXT as unit stats)
+pub open spec fn flag_vec_field(flag: bool, dim: nat, content: Seq<real>, field: Option<Vec<F>>) -> bool {
+    &&& (field is Some == flag)
+    &&& (field is Some ==> field->0@.len() == dim && fvals(field->0@) == content)
+}
+/// [C16.1 C03.5] statistics of a point: scalars are those of the point, optional vectors follow their flags
+/// (SAME TEXT as unit stats, where it is PROVED for `TransformedPoint::extract_stats`)
+pub open spec fn point_stats_post<M: Math>(p: TransformedPoint<M>, dim: nat, opt: TransformedPointStatsOptions, r: PointStats) -> bool {
+    let v = tp_view(p);
+    &&& r.index_in_trajectory as int == v.idx          // [C03.5]
+    &&& r.logp.r() == v.logp                           // [C03.5]
+    &&& r.energy.r() == v.energy                       // [C03.5]
+    &&& r.energy_error.r() == v.energy - v.e0          // [C03.5]
+    &&& r.transformation_index == p.transform_id
+    &&& flag_vec_field(opt.store_unconstrained, dim, v.x, r.unconstrained_draw)     // [C16.1 C03.5]
+    &&& flag_vec_field(opt.store_gradient, dim, v.g, r.gradient)                    // [C16.1 C03.5]
+    &&& flag_vec_field(opt.store_transformed, dim, v.q, r.transformed_position)     // [C16.1]
+    &&& flag_vec_field(opt.store_transformed, dim, v.gq, r.transformed_gradient)    // [C16.1]
+}
+
+/// the statistics type of an MCLMC chain (`<MclmcChain<M, R, A, T> as SamplerStats<M>>::Stats`, normalised)
+pub type McStats<M, A, T> = MclmcStats<StatsDims, HamiltonianStats<StatsDims, <T as SamplerStats<M>>::Stats>, <A as SamplerStats<M>>::Stats, PointStats>;
+
+// ---- extract_stats ------------------------------------------------------------------------------------------
+/// the `.expect("Sampler has not started yet")` is a stated precondition; the components' own preconditions are
+/// passed on (TransformedPoint's is `true`)
+pub open spec fn mc_stats_pre<M: Math, R: rand::Rng, A: AdaptStrategy<M, Hamiltonian = TransformedHamiltonian<M, T>>, T: Transformation<M>>(
+    c: MclmcChain<M, R, A, T>, dim: nat, o: StatOptions<M, A>) -> bool
+{
+    &&& c.last_info is Some
+    &&& c.hamiltonian.stats_pre(dim, o.hamiltonian)
+    &&& c.adapt.stats_pre(dim, o.adapt)
+}
+/// [C03.5 C16.2] step count / energy change / step size / divergence from `last_info`, point statistics from
+/// `self.state.point()`, `draw` = draw_count, `chain` = chain, `tuning` = the strategy's flag.
+/// (`log_weight` is NOT specified: no property of the catalogue says what it is; see the report.)
+pub open spec fn mc_stats_post<M: Math, R: rand::Rng, A: AdaptStrategy<M, Hamiltonian = TransformedHamiltonian<M, T>>, T: Transformation<M>>(
+    c: MclmcChain<M, R, A, T>, dim: nat, o: StatOptions<M, A>, r: McStats<M, A, T>) -> bool
+{
+    let info = c.last_info->0;
+    &&& r.chain == c.chain                                      // [C16.2]
+    &&& r.draw == c.draw_count                                  // [C16.2]
+    &&& r.num_steps == info.num_steps                           // [C03.5]
+    &&& r.energy_change.r() == info.energy_change.r()           // [C03.5]
+    &&& r.average_step_size.r() == info.average_step_size.r()   // [C03.5]
+    &&& r.tuning == c.adapt.tuning_view()                       // [C06.3]
+    // the components' statistics, extracted with the options handed in
+    &&& c.hamiltonian.stats_post(dim, o.hamiltonian, r.hamiltonian)     // [C16.1]
+    &&& c.adapt.stats_post(dim, o.adapt, r.adapt)
+    // [C03.5] the point statistics are those of the chain's current state
+    &&& c.state.pt().stats_post(dim, o.point, r.point)
+    // [C03.5 C16.1] divergence statistics from last_info, stamped with draw_count
+    &&& r.divergence.diverging == (info.divergence_info is Some)
+    &&& r.divergence.divergence_draw == (if info.divergence_info is Some { Some(c.draw_count) } else { None::<u64> })
+    &&& (r.divergence.divergence_message is Some == info.divergence_info is Some)
+}
+
+// ---- expanded_draw -------------------------------------------------------------------------------------------
+/// extract_stats of the components is total (unit stats: TransformedPoint `true`; TransformedHamiltonian passes the
+/// transformation's precondition on, DiagMassMatrix `true`; for GlobalStrategy it is `strat_wf(step_size)`, part of
+/// gs_inv).  Same text as unit chain's `stats_total`, for the concrete Hamiltonian of MCLMC.
+pub open spec fn mc_stats_total<M: Math, A: AdaptStrategy<M, Hamiltonian = TransformedHamiltonian<M, T>>, T: Transformation<M>>() -> bool {
+    &&& forall|t: T, dim: nat, o: <T as SamplerStats<M>>::StatsOptions| #[trigger] t.stats_pre(dim, o)
+    &&& forall|s: A, d: u64, dim: nat, o: <A as SamplerStats<M>>::StatsOptions| #![trigger s.inv(d), s.stats_pre(dim, o)] s.inv(d) ==> s.stats_pre(dim, o)
+}
+pub open spec fn mc_exp_pre<M: Math, R: rand::Rng, A: AdaptStrategy<M, Hamiltonian = TransformedHamiltonian<M, T>>, T: Transformation<M>>(c: MclmcChain<M, R, A, T>) -> bool {
+    mc_draw_pre(c) && mc_stats_total::<M, A, T>()
+}
+/// what expanded_draw does after the draw (`mid` = the chain as `draw` left it):
+///  * the statistics are those of `mid`, extracted with the options in force BEFORE the update (so `last_info` is Some:
+///    the `.expect` cannot fire);
+///  * then `stats_options.hamiltonian` becomes what `hamiltonian.update_stats_options(math, <old value>)` returns -- the
+///    id the NEXT extraction compares with; nothing else of the chain changes
+pub open spec fn me_mid<M: Math, R: rand::Rng, A: AdaptStrategy<M, Hamiltonian = TransformedHamiltonian<M, T>>, T: Transformation<M>>(
+    c0: MclmcChain<M, R, A, T>, mid: MclmcChain<M, R, A, T>, c1: MclmcChain<M, R, A, T>,
+    position: Box<[F]>, stats: McStats<M, A, T>, progress: Progress, dim: nat) -> bool
+{
+    &&& mc_draw_post(c0, mid, Ok((position, progress)))
+    &&& mid.stats_options == c0.stats_options
+    &&& mc_stats_post(mid, dim, mid.stats_options, stats)                                                  // [C16.1 C16.2 C03.5]
+    // [C16.1] the id reported next time is compared with the one the Hamiltonian hands out now
+    &&& mid.hamiltonian.uso_post(&c1.hamiltonian, mid.stats_options.hamiltonian, c1.stats_options.hamiltonian)   // [C16.1]
+    &&& c1.stats_options.adapt == mid.stats_options.adapt && c1.stats_options.point == mid.stats_options.point
+    &&& c1.stats_options.divergence == mid.stats_options.divergence
+    &&& c1.adapt == mid.adapt && c1.state == mid.state && c1.last_info == mid.last_info
+    &&& c1.draw_count == mid.draw_count && c1.chain == mid.chain && c1.collector == mid.collector
+    &&& c1.subsample_frequency == mid.subsample_frequency && c1.dynamic_step_size == mid.dynamic_step_size
+    &&& c1.trajectory_kind == mid.trajectory_kind && c1.switch_draw == mid.switch_draw
+    &&& c1.max_energy_error == mid.max_energy_error
+}
+/// an error of `draw()` is the call's error (Ok only with a `mid` for which draw's contract holds with Ok); an error of
+/// `expand_vector` likewise: the returned `M::ExpandedVector` can only come from that call (M is abstract)
+pub open spec fn mc_exp_post<M: Math, R: rand::Rng, A: AdaptStrategy<M, Hamiltonian = TransformedHamiltonian<M, T>>, T: Transformation<M>>(
+    c0: MclmcChain<M, R, A, T>, c1: MclmcChain<M, R, A, T>, r: Result<(Box<[F]>, M::ExpandedVector, McStats<M, A, T>, Progress)>) -> bool
+{
+    &&& c1.chain == c0.chain                                                                                // [C16.2]
+    &&& (r is Ok ==> exists|mid: MclmcChain<M, R, A, T>, dim: nat| #[trigger] me_mid(c0, mid, c1, r->Ok_0.0, r->Ok_0.2, r->Ok_0.3, dim))
+}
+
+/// [C16.2] the `draw` statistic of the k-th expanded draw is the counter AFTER that draw (k+1) while Progress.draw is k;
+/// both increase by one per draw; chain ids are constant.  [C16.1] divergence fields exactly on divergent draws, carrying
+/// the same counter.  [C03.5] the step count in the statistics is the one of this draw.
+// [C16.2 C16.1 C03.5]
+pub proof fn lemma_mc_stats_counters<M: Math, R: rand::Rng, A: AdaptStrategy<M, Hamiltonian = TransformedHamiltonian<M, T>>, T: Transformation<M>>(
+    c0: MclmcChain<M, R, A, T>, c1: MclmcChain<M, R, A, T>, r: Result<(Box<[F]>, M::ExpandedVector, McStats<M, A, T>, Progress)>)
+    requires mc_exp_post(c0, c1, r), r is Ok
+    ensures
+        r->Ok_0.3.draw == c0.draw_count, r->Ok_0.2.draw == c0.draw_count + 1, c1.draw_count == c0.draw_count + 1,
+        r->Ok_0.3.chain == c0.chain, r->Ok_0.2.chain == c0.chain, c1.chain == c0.chain,
+        // [C16.1] the divergence event: exactly on divergent draws, with both identifying fields and the same counter
+        r->Ok_0.2.divergence.diverging == r->Ok_0.3.diverging,
+        r->Ok_0.2.divergence.divergence_draw is Some == r->Ok_0.3.diverging,
+        r->Ok_0.2.divergence.divergence_message is Some == r->Ok_0.3.diverging,
+        r->Ok_0.2.divergence.divergence_draw is Some ==> r->Ok_0.2.divergence.divergence_draw == Some(r->Ok_0.2.draw),
+        // [C03.5] step count and tuning flag of THIS draw
+        r->Ok_0.2.num_steps == r->Ok_0.3.num_steps,
+        r->Ok_0.2.tuning == r->Ok_0.3.tuning,
+        // the Hamiltonian is not changed by the options update; the options of the other components never change
+        c1.stats_options.adapt == c0.stats_options.adapt, c1.stats_options.point == c0.stats_options.point,
+        c1.stats_options.divergence == c0.stats_options.divergence,
+{
+    let (mid, dim) = choose|mid: MclmcChain<M, R, A, T>, dim: nat| #[trigger] me_mid(c0, mid, c1, r->Ok_0.0, r->Ok_0.2, r->Ok_0.3, dim);
+    assert(me_mid(c0, mid, c1, r->Ok_0.0, r->Ok_0.2, r->Ok_0.3, dim));
+}
+
+/// the laws of a transformation's statistics that turn "options update after each extraction" into "an event exactly
+/// when the transformation changed", stated through two observers (`opt_id`: the id stored in an options value;
+/// `reports`: the statistics carry a transformation-update event).  For DiagMassMatrix both are PROVED in unit stats
+/// (`nso_post`: `r == self.id`; `diag_stats_post`: `transformation_update_id is Some == (id != last_id)`), with
+/// `opt_id = identity` and `reports = |s| s.transformation_update_id is Some`.
+pub open spec fn upd_laws<M: Math, T: Transformation<M>>(
+    opt_id: spec_fn(<T as SamplerStats<M>>::StatsOptions) -> int, reports: spec_fn(<T as SamplerStats<M>>::Stats) -> bool) -> bool
+{
+    &&& forall|t: T, cur: <T as SamplerStats<M>>::StatsOptions, r: <T as SamplerStats<M>>::StatsOptions|
+            #[trigger] t.nso_post(cur, r) ==> opt_id(r) == t.tid()
+    &&& forall|t: T, dim: nat, o: <T as SamplerStats<M>>::StatsOptions, s: <T as SamplerStats<M>>::Stats|
+            #[trigger] t.stats_post(dim, o, s) ==> (reports(s) == (t.tid() != opt_id(o)))
+}
+/// [C16.1] two consecutive successful expanded draws: the SECOND one reports a transformation-update event exactly when
+/// the transformation id at its extraction (c2.hamiltonian) differs from the id at the first extraction (c1.hamiltonian:
+/// `update_stats_options` leaves the Hamiltonian as the first extraction saw it).  Rests on: draw k+1 does not touch
+/// stats_options (dp_frame), the statistics of draw k+1 are extracted with the options stored after draw k (me_mid), and
+/// those are what `update_stats_options` returned for the Hamiltonian of extraction k.
+// [C16.1]
+pub proof fn lemma_mc_update_event_exactly_on_change<M: Math, R: rand::Rng, A: AdaptStrategy<M, Hamiltonian = TransformedHamiltonian<M, T>>, T: Transformation<M>>(
+    c0: MclmcChain<M, R, A, T>, c1: MclmcChain<M, R, A, T>, r1: Result<(Box<[F]>, M::ExpandedVector, McStats<M, A, T>, Progress)>,
+    c2: MclmcChain<M, R, A, T>, r2: Result<(Box<[F]>, M::ExpandedVector, McStats<M, A, T>, Progress)>,
+    opt_id: spec_fn(<T as SamplerStats<M>>::StatsOptions) -> int, reports: spec_fn(<T as SamplerStats<M>>::Stats) -> bool)
+    requires
+        mc_exp_post(c0, c1, r1), r1 is Ok,          // expanded draw k
+        mc_exp_post(c1, c2, r2), r2 is Ok,          // expanded draw k+1
+        upd_laws::<M, T>(opt_id, reports),
+    ensures
+        // the options stored after draw k hold the id of the transformation as extraction k saw it
+        opt_id(c1.stats_options.hamiltonian) == c1.hamiltonian.transformation.tid(),
+        // draw k+1 reports an update exactly when the id changed in between
+        reports(r2->Ok_0.2.hamiltonian.transformation)
+            == (c2.hamiltonian.transformation.tid() != c1.hamiltonian.transformation.tid()),
+{
+    let (m1, d1) = choose|mid: MclmcChain<M, R, A, T>, dim: nat| #[trigger] me_mid(c0, mid, c1, r1->Ok_0.0, r1->Ok_0.2, r1->Ok_0.3, dim);
+    assert(me_mid(c0, m1, c1, r1->Ok_0.0, r1->Ok_0.2, r1->Ok_0.3, d1));
+    let (m2, d2) = choose|mid: MclmcChain<M, R, A, T>, dim: nat| #[trigger] me_mid(c1, mid, c2, r2->Ok_0.0, r2->Ok_0.2, r2->Ok_0.3, dim);
+    assert(me_mid(c1, m2, c2, r2->Ok_0.0, r2->Ok_0.2, r2->Ok_0.3, d2));
+    // extraction k: update_stats_options on m1.hamiltonian (== c1.hamiltonian) returned c1.stats_options.hamiltonian
+    assert(m1.hamiltonian.transformation.nso_post(m1.stats_options.hamiltonian, c1.stats_options.hamiltonian));
+    assert(c1.hamiltonian == m1.hamiltonian);
+    // extraction k+1: with the options draw k left behind, on m2.hamiltonian (== c2.hamiltonian)
+    assert(m2.stats_options == c1.stats_options);
+    assert(m2.hamiltonian.transformation.stats_post(d2, c1.stats_options.hamiltonian, r2->Ok_0.2.hamiltonian.transformation));
+    assert(c2.hamiltonian == m2.hamiltonian);
+}
+/// [C16.1] the same for the diagonal-style rule without observers: whatever the transformation's rule is, the statistics
+/// of draw k+1 satisfy the transformation's `stats_post` for the options `nso_post` produced right after extraction k
+// [C16.1]
+pub proof fn lemma_mc_next_extraction_uses_updated_options<M: Math, R: rand::Rng, A: AdaptStrategy<M, Hamiltonian = TransformedHamiltonian<M, T>>, T: Transformation<M>>(
+    c0: MclmcChain<M, R, A, T>, c1: MclmcChain<M, R, A, T>, r1: Result<(Box<[F]>, M::ExpandedVector, McStats<M, A, T>, Progress)>,
+    c2: MclmcChain<M, R, A, T>, r2: Result<(Box<[F]>, M::ExpandedVector, McStats<M, A, T>, Progress)>)
+    requires
+        mc_exp_post(c0, c1, r1), r1 is Ok,
+        mc_exp_post(c1, c2, r2), r2 is Ok,
+    ensures
+        exists|dim1: nat, dim2: nat| {
+            // extraction k, with the options in force before it
+            &&& #[trigger] c1.hamiltonian.transformation.stats_post(dim1, c0.stats_options.hamiltonian, r1->Ok_0.2.hamiltonian.transformation)
+            // next_stats_options right after it
+            &&& c1.hamiltonian.transformation.nso_post(c0.stats_options.hamiltonian, c1.stats_options.hamiltonian)
+            // extraction k+1
+            &&& #[trigger] c2.hamiltonian.transformation.stats_post(dim2, c1.stats_options.hamiltonian, r2->Ok_0.2.hamiltonian.transformation)
+        },
+{
+    let (m1, d1) = choose|mid: MclmcChain<M, R, A, T>, dim: nat| #[trigger] me_mid(c0, mid, c1, r1->Ok_0.0, r1->Ok_0.2, r1->Ok_0.3, dim);
+    assert(me_mid(c0, m1, c1, r1->Ok_0.0, r1->Ok_0.2, r1->Ok_0.3, d1));
+    let (m2, d2) = choose|mid: MclmcChain<M, R, A, T>, dim: nat| #[trigger] me_mid(c1, mid, c2, r2->Ok_0.0, r2->Ok_0.2, r2->Ok_0.3, dim);
+    assert(me_mid(c1, m2, c2, r2->Ok_0.0, r2->Ok_0.2, r2->Ok_0.3, d2));
+    assert(c1.hamiltonian == m1.hamiltonian && c2.hamiltonian == m2.hamiltonian);
+    assert(c1.hamiltonian.transformation.stats_post(d1, c0.stats_options.hamiltonian, r1->Ok_0.2.hamiltonian.transformation));
+    assert(c2.hamiltonian.transformation.stats_post(d2, c1.stats_options.hamiltonian, r2->Ok_0.2.hamiltonian.transformation));
 }
